@@ -64,3 +64,32 @@ Theorem c01_nth_value_nth_slice :
   nth_error l i = Some p ->
   nth_error (enc_stream l ks) i = Some (xor_ks p (LE.drop (total_length (firstn i l)) ks)).
 Proof. exact enc_stream_nth. Qed.
+
+(* ---------------- XML surface forms (xml/XmlSurface*.v) ----------------
+   [surface_variant d d'] : d' is obtained from the document d by any number of: an unknown element
+   inserted among the children of any element whose reader skips unknown children (Meta, Group,
+   Entry, History, String, AutoType, ... - for the seven kinds that do not, the refutations are in
+   XmlSurfaceExamples.v), a time stamp written in another encoding that denotes the same time
+   (ISO-8601 for base64), the Protected / Compressed attribute values written in another letter
+   case, other attributes on leaf elements.  [layout_variant] adds admissible exchanges of adjacent
+   children (different names, one of them not touching the key stream, not Entry/Group siblings,
+   not two stamps).  Every such variant of a written document reads back as the same content and
+   leaves the key stream at the same place. *)
+From KP Require Import XmlSurface.
+Theorem c01_surface_variants_read_alike :
+  forall (gzip : bytes -> bytes) (gunzip : bytes -> option bytes) (c : content) (ks : bytes) (d' : list ev),
+  wf_content gzip gunzip c = true -> bytes_ok ks = true ->
+  surface_variant (dump_events gzip c ks) d' ->
+  parse_events gunzip d' ks = Ok c /\
+  (forall X, p_keepass gunzip (length (d' ++ X)) (d' ++ X) ks
+             = Ok (c, X, LE.drop (total_length (protected_values_in_order c)) ks)).
+Proof. exact surface_variant_roundtrip. Qed.
+
+Theorem c01_layout_variants_read_alike :
+  forall (gzip : bytes -> bytes) (gunzip : bytes -> option bytes) (c : content) (ks : bytes) (d' : list ev),
+  wf_content gzip gunzip c = true -> bytes_ok ks = true ->
+  layout_variant gunzip (dump_events gzip c ks) d' ->
+  parse_events gunzip d' ks = Ok c /\
+  (forall X, p_keepass gunzip (length (d' ++ X)) (d' ++ X) ks
+             = Ok (c, X, LE.drop (total_length (protected_values_in_order c)) ks)).
+Proof. exact layout_variant_roundtrip. Qed.
